@@ -33,6 +33,9 @@ pub enum Ann {
     Foreign(u8, u8),
     /// peer i's records under a deeper name: a.<peer>.<service>
     Deeper(u8),
+    /// peer i announces itself and the packet's additional section also carries records owned by
+    /// names outside the watched service (a host name, another service's instance)
+    PeerPlusForeign(u8, u8),
 }
 
 #[derive(Debug, Clone, PartialEq, Eq, Hash, serde::Serialize, serde::Deserialize)]
@@ -94,6 +97,10 @@ fn summary_of_peer(p: &Peer) -> Summary {
 
 /// what an announcer puts on the wire for `info` under `owner` (mirrors ServiceDiscovery::announce)
 fn announcement(info: InstanceInformation, owner: &str, ttl: u32) -> Result<Vec<u8>, Fail> {
+    announcement_with(info, owner, ttl, &[])
+}
+
+fn announcement_with(info: InstanceInformation, owner: &str, ttl: u32, foreign_additionals: &[&str]) -> Result<Vec<u8>, Fail> {
     let owner_name = Name::new(owner).map_err(|e| Fail::new("harness:name", format!("{}: {:?}", owner, e)))?.into_owned();
     let records = lib("into_records", || info.into_records(&owner_name, ttl))?.map_err(|e| Fail::new("c15:into-records", format!("{:?}", e)))?;
     let mut p = Packet::new_reply(1);
@@ -102,6 +109,17 @@ fn announcement(info: InstanceInformation, owner: &str, ttl: u32) -> Result<Vec<
             p.additional_records.push(r.clone());
         }
         p.answers.push(r.clone());
+    }
+    for (k, f) in foreign_additionals.iter().enumerate() {
+        let fname = Name::new(f).map_err(|e| Fail::new("harness:name", format!("{}: {:?}", f, e)))?.into_owned();
+        p.additional_records.push(ResourceRecord::new(fname.clone(), CLASS::IN, ttl, RData::A(simple_dns::rdata::A { address: 0xC0A86300 + k as u32 })));
+        p.additional_records.push(ResourceRecord::new(
+            fname.clone(),
+            CLASS::IN,
+            ttl,
+            RData::SRV(simple_dns::rdata::SRV { priority: 0, weight: 0, port: 9999, target: fname.clone() }),
+        ));
+        p.additional_records.push(ResourceRecord::new(fname, CLASS::IN, ttl, RData::TXT(simple_dns::rdata::TXT::new().with_string("foreign=1").unwrap())));
     }
     ser_compressed(&p)
 }
@@ -140,6 +158,16 @@ fn check(d: &Disc, case: &mut Case) -> Result<(), Fail> {
                 let e = (Some(p.name.clone()), summary_of_peer(p));
                 expected.insert(owner.clone(), e.clone());
                 (announcement(info_of(p, &p.name), &owner, d.ttl)?, Some(e))
+            }
+            Ann::PeerPlusForeign(i, w) => {
+                noise += 1;
+                let p = &d.peers[*i as usize % d.peers.len()];
+                let owner = format!("{}.{}", p.name, service);
+                let e = (Some(p.name.clone()), summary_of_peer(p));
+                expected.insert(owner.clone(), e.clone());
+                let hosts = [format!("{}.local", p.name), format!("{}.{}", p.name, foreign[*w as usize % 4]), service.to_string()];
+                let hs: Vec<&str> = hosts.iter().map(|s| s.as_str()).take(1 + (*w as usize % 3)).collect();
+                (announcement_with(info_of(p, &p.name), &owner, d.ttl, &hs)?, Some(e))
             }
             Ann::Own => {
                 noise += 1;
@@ -241,8 +269,30 @@ fn attr_strategy() -> BoxedStrategy<Vec<(String, Option<String>)>> {
 
 fn strategy(_t: Tier) -> BoxedStrategy<Disc> {
     let peer = (
-        vec((any::<bool>(), vec(any::<u8>(), 16).prop_map(Bytes)), 0..=4),
-        vec(prop_oneof![Just(80u16), Just(8080), any::<u16>()], 0..=4),
+        vec(
+            prop_oneof![
+                3 => (any::<bool>(), vec(any::<u8>(), 16).prop_map(Bytes)),
+                // special-purpose addresses: unspecified, loopback, link-local, IPv4-mapped / -compatible IPv6,
+                // and the IPv4 address that a mapped one would collapse into
+                2 => select(vec![
+                    (true, vec![10, 0, 0, 5, 0, 0, 0, 0, 0, 0, 0, 0, 0, 0, 0, 0]),
+                    (false, vec![0, 0, 0, 0, 0, 0, 0, 0, 0, 0, 0xff, 0xff, 10, 0, 0, 5]),
+                    (false, vec![0, 0, 0, 0, 0, 0, 0, 0, 0, 0, 0, 0, 10, 0, 0, 5]),
+                    (false, vec![0, 0, 0, 0, 0, 0, 0, 0, 0, 0, 0xff, 0xff, 192, 168, 1, 9]),
+                    (false, vec![0; 16]),
+                    (false, vec![0, 0, 0, 0, 0, 0, 0, 0, 0, 0, 0, 0, 0, 0, 0, 1]),
+                    (false, vec![0xfe, 0x80, 0, 0, 0, 0, 0, 0, 0, 0, 0, 0, 0, 0, 0, 1]),
+                    (false, vec![0xff, 0x02, 0, 0, 0, 0, 0, 0, 0, 0, 0, 0, 0, 0, 0, 0xfb]),
+                    (true, vec![0; 16]),
+                    (true, vec![255; 16]),
+                    (true, vec![127, 0, 0, 1, 0, 0, 0, 0, 0, 0, 0, 0, 0, 0, 0, 0]),
+                    (true, vec![224, 0, 0, 251, 0, 0, 0, 0, 0, 0, 0, 0, 0, 0, 0, 0]),
+                ])
+                .prop_map(|(v4, b)| (v4, Bytes(b))),
+            ],
+            0..=4,
+        ),
+        vec(prop_oneof![Just(80u16), Just(8080), Just(0u16), Just(65535u16), any::<u16>()], 0..=4),
         attr_strategy(),
     );
     let ann = prop_oneof![
@@ -251,6 +301,7 @@ fn strategy(_t: Tier) -> BoxedStrategy<Disc> {
         1 => (0u8..5).prop_map(Ann::ServicePtr),
         2 => (0u8..4, 0u8..5).prop_map(|(w, i)| Ann::Foreign(w, i)),
         3 => (0u8..5).prop_map(Ann::Deeper),
+        3 => (0u8..5, 0u8..12).prop_map(|(i, w)| Ann::PeerPlusForeign(i, w)),
     ];
     (0u8..2, vec(peer, 1..=5), vec(ann, 1..10), any::<bool>(), select(vec![60u32, 120, 4500]), any::<u8>())
         .prop_map(|(service, peers, seq, channel, ttl, rot)| {
@@ -295,7 +346,7 @@ fn check_escape(s: &String, case: &mut Case) -> Result<(), Fail> {
 pub fn def() -> CheckDef {
     CheckDef {
         id: "C15",
-        rule: "model-based: a watched service (_srv._tcp.local or _my._udp.local), a discoverer named 'self', 1..5 peers with distinct valid single-label names, 0..4 IPv4/IPv6 addresses, 0..4 ports and attribute lists (values absent / empty / non-empty), and sequences of 1..9 announcements: peers (repeated), the discoverer's own instance, PTR records owned by the service name, the peers' records under textually colliding foreign services (_srvx._tcp.local, x_srv._tcp.local, _srv._tcpx.local, _tcp.local) and under deeper names (a.<peer>.<service>). Each announcement is assembled like ServiceDiscovery::announce (into_records, answers + address records as additionals), serialised with build_bytes_vec_compressed, parsed, ingested with the receive loop's add_response_to_resources (with and without an on_discovery channel) and read back exactly as get_known_services does. Oracle: every advertised peer is reported exactly once with exactly its name, address set, port set and attribute map; the number of reported instances equals the number of advertised strict-subdomain owners and each equals one owner's record set; nothing for the discoverer, the service name or foreign services; channel messages equal the instance just announced and none is delivered for records that must not be reported. Separately, unescape(escape(s)) == s for generated strings biased to '.' and '\\\\'. Non-trivial = >= 2 peers, a multi-member set, or noise present",
+        rule: "model-based: a watched service (_srv._tcp.local or _my._udp.local), a discoverer named 'self', 1..5 peers with distinct valid single-label names, 0..4 IPv4/IPv6 addresses, 0..4 ports and attribute lists (values absent / empty / non-empty), and sequences of 1..9 announcements: peers (repeated), the discoverer's own instance, PTR records owned by the service name, the peers' records under textually colliding foreign services (_srvx._tcp.local, x_srv._tcp.local, _srv._tcpx.local, _tcp.local) and under deeper names (a.<peer>.<service>), and peer announcements whose additional section also carries A/SRV/TXT records owned by names outside the service (a host name, another service's instance, the service name itself). Each announcement is assembled like ServiceDiscovery::announce (into_records, answers + address records as additionals), serialised with build_bytes_vec_compressed, parsed, ingested with the receive loop's add_response_to_resources (with and without an on_discovery channel) and read back exactly as get_known_services does. Oracle: every advertised peer is reported exactly once with exactly its name, address set, port set and attribute map; the number of reported instances equals the number of advertised strict-subdomain owners and each equals one owner's record set; nothing for the discoverer, the service name or foreign services; channel messages equal the instance just announced and none is delivered for records that must not be reported. Separately, unescape(escape(s)) == s for generated strings biased to '.' and '\\\\'. Non-trivial = >= 2 peers, a multi-member set, or noise present",
         assumptions: vec![
             "driven through simple_mdns::verif (hook): ResourceRecordManager, add_response_to_resources of the sync service discovery, InstanceInformation::from_records",
             "for deeper names only the record sets are compared (the statement does not define their instance name)",
